@@ -256,7 +256,49 @@ struct FIO_ctx_s {
     int nbFilesProcessed;
     size_t totalBytesInput;
     size_t totalBytesOutput;
+
+    /* names of the output files completed by this command (several inputs only), each followed by the name of its input :
+     * another input of the same command must not replace one of them, even with -f */
+    char** ownOutputs;
+    size_t nbOwnOutputs;
+    size_t ownOutputsCapacity;
 };
+
+static char* FIO_copyName(const char* name)
+{
+    size_t const len = strlen(name) + 1;
+    char* const copy = (char*)malloc(len);
+    if (copy == NULL) EXM_THROW(21, "Allocation error : not enough memory");
+    memcpy(copy, name, len);
+    return copy;
+}
+
+static void FIO_rememberOutput(FIO_ctx_t* fCtx, const char* srcFileName, const char* dstFileName)
+{
+    if (fCtx->nbFilesTotal <= 1) return;
+    if (fCtx->nbOwnOutputs + 2 > fCtx->ownOutputsCapacity) {
+        size_t const newCapacity = fCtx->ownOutputsCapacity ? 2 * fCtx->ownOutputsCapacity : 16;
+        char** const newTable = (char**)realloc(fCtx->ownOutputs, newCapacity * sizeof(char*));
+        if (newTable == NULL) EXM_THROW(21, "Allocation error : not enough memory");
+        fCtx->ownOutputs = newTable;
+        fCtx->ownOutputsCapacity = newCapacity;
+    }
+    fCtx->ownOutputs[fCtx->nbOwnOutputs++] = FIO_copyName(dstFileName);
+    fCtx->ownOutputs[fCtx->nbOwnOutputs++] = FIO_copyName(srcFileName);
+}
+
+/* @return : 1 when dstFileName is the output this command wrote for an input other than srcFileName
+ * (the same input listed twice just writes the same output again) */
+static int FIO_isOutputOfAnotherInput(const FIO_ctx_t* fCtx, const char* srcFileName, const char* dstFileName)
+{
+    size_t n;
+    for (n = 0; n + 1 < fCtx->nbOwnOutputs; n += 2) {
+        if ( UTIL_isSameFile(fCtx->ownOutputs[n], dstFileName)
+          && !(srcFileName != NULL && UTIL_isSameFile(fCtx->ownOutputs[n+1], srcFileName)) )
+            return 1;
+    }
+    return 0;
+}
 
 static int FIO_shouldDisplayFileSummary(FIO_ctx_t const* fCtx)
 {
@@ -327,6 +369,9 @@ FIO_ctx_t* FIO_createContext(void)
     ret->nbFilesProcessed = 0;
     ret->totalBytesInput = 0;
     ret->totalBytesOutput = 0;
+    ret->ownOutputs = NULL;
+    ret->nbOwnOutputs = 0;
+    ret->ownOutputsCapacity = 0;
     return ret;
 }
 
@@ -337,6 +382,11 @@ void FIO_freePreferences(FIO_prefs_t* const prefs)
 
 void FIO_freeContext(FIO_ctx_t* const fCtx)
 {
+    if (fCtx != NULL) {
+        size_t n;
+        for (n = 0; n < fCtx->nbOwnOutputs; n++) free(fCtx->ownOutputs[n]);
+        free(fCtx->ownOutputs);
+    }
     free(fCtx);
 }
 
@@ -625,6 +675,12 @@ FIO_openDstFile(FIO_ctx_t* fCtx, FIO_prefs_t* const prefs,
                         dstFileName);
         }
 #endif
+        if (FIO_isOutputOfAnotherInput(fCtx, srcFileName, dstFileName)) {
+            /* -f is a consent to replace files that existed before this command, not the output of another of its inputs */
+            DISPLAYLEVEL(1, "zstd: %s was written by this command for another input file; not overwritten  \n",
+                        dstFileName);
+            return NULL;
+        }
         if (!prefs->overwrite) {
             if (g_display_prefs.displayLevel <= 1) {
                 /* No interaction possible */
@@ -1905,6 +1961,7 @@ static int FIO_compressFilename_dstFile(FIO_ctx_t* const fCtx,
           ) {
             FIO_removeFile(dstFileName); /* remove compression artefact; note don't do anything special if remove() fails */
         }
+        if (result == 0) FIO_rememberOutput(fCtx, srcFileName, dstFileName);
     }
 
     return result;
@@ -2888,6 +2945,7 @@ static int FIO_decompressDstFile(FIO_ctx_t* const fCtx,
           ) {
             FIO_removeFile(dstFileName);  /* remove decompression artefact; note: don't do anything special if remove() fails */
         }
+        if (result == 0) FIO_rememberOutput(fCtx, srcFileName, dstFileName);
     }
 
     return result;
